@@ -93,6 +93,16 @@ theorem add_entry_name_fits (name : Bytes) (num ref mode : Nat) (e : DEnt) (h : 
           split at ht <;> simp at ht <;> subst ht <;> decide
         refine ⟨rfl, hlen, hmax, by simp only; omega, by simp only; omega, htyp.1, htyp.2⟩
 
+/-- the repaired `sqfs_dir_writer_create_inode`: the 16-bit index count of an extended directory inode is the number
+of index entries that follow it (no wrap), for every number of headers -/
+theorem dir_index_count_exact (dirRef : Nat) (runs : List Run) (n h x p : Nat) :
+    (createInode dirRef runs n h x p).indexCount = (createInode dirRef runs n h x p).index.length := by
+  unfold DirInode.indexCount createInode createInodeCap
+  simp only
+  split
+  · simp only [List.length_map, List.length_take, maxIndex]; omega
+  · simp
+
 end Dir
 
 /-! ## metadata writer -/
